@@ -16,6 +16,34 @@ CHECKS = {
 
 PENDING = {}
 
+def _c(technique, text, note, ref, category='exploration'):
+    return dict(technique=technique, text=text, note=note, ref=ref,
+                category=category)
+
+
+_TT = 'runtime monitoring: truth-table reference model'
+_NOTE = 'Trusts vf/oracle.py (truth tables as Python ints), CPython, and that BDD._succ / the level map are the representation being judged; nothing is claimed beyond the executions listed in the evidence file.'
+CHECKS.update({
+    'C02': _c(_TT + ' + structural monitors M1-M3 at every quiescent point of generated histories; route-equality oracle',
+              'All functions of 3 variables by 10 construction routes under all orders and both managers (same integer required), all/sampled functions of 4 variables with a bijection table<->reference check, and histories (ops, collections, swaps, sifting, declare/undeclare, copy, load) with own reducedness/ordering/uniqueness and pairwise-distinct-denotation monitors after every step.',
+              _NOTE, 'DESIGN.md section 3 C02'),
+    'C03': _c(_TT + ' over exhaustive function x subset sweeps',
+              'Every function of 3 (and all/sampled of 4) variables x every subset x both quantifiers x orders through every entry point (names, lists, levels, apply forms, autoref, Function methods), fresh and long-lived managers; plus same-reference check when no quantified variable is in the support.',
+              _NOTE, 'DESIGN.md section 3 C03'),
+    'C04': _c(_TT + ' (cofactor / simultaneous substitution) over exhaustive sweeps',
+              'n=3: all functions x all 27 partial assignments x all 64 renamings x every single-variable composition with every function; sampled vector compositions; n=4 all/sampled; operand table and counts re-checked.',
+              _NOTE, 'DESIGN.md section 3 C04'),
+    'C05': _c('runtime monitoring: independent reader of the documented grammar as oracle for add_expr over generated formulas',
+              'Complete operator-pair/triple spelling matrices, binder templates, constants, comments, @n, random formulas to depth 5, each compared with an independent precedence-climbing evaluator and with its fully parenthesised form; to_expr round trip and independent reading of the printed text for all functions of <=3 (4: all/sampled) variables.',
+              'Trusts vf/formula.py as a faithful reading of doc.md; ' + _NOTE, 'DESIGN.md section 3 C05'),
+    'C10': _c(_TT + ' (support, model count, model set) over exhaustive sweeps',
+              'Every function of <=3 (4: all/sampled) variables with and without a spare declared variable: support/is_essential, count for n up to support+3 and refusal below, pick_iter for every care set (disjoint cubes inside the models covering them), pick; dd.bdd, dd.autoref, Function methods.',
+              _NOTE, 'DESIGN.md section 3 C10'),
+    'C18': _c(_TT + ' applied to re-evaluated traversals and parsed graph exports',
+              'Every function of <=3 (4: all/sampled) variables and sampled root sets: traversal via Function/succ, descendants/sizes vs own reachability, to_nx graph and DOT text re-read and evaluated.',
+              _NOTE + ' DOT legend as documented in doc.md.', 'DESIGN.md section 3 C18'),
+})
+
 NOT_APPLICABLE = {
     'C19': 'C back ends (dd/cudd.pyx, cudd_zdd.pyx, sylvan.pyx, buddy.pyx) cannot be built or imported here (CUDD/Sylvan/BuDDy absent, nothing can be fetched): no execution exists for a runtime monitor to observe; the property is about wrapper source text (static analysis, a different technique family). See DESIGN.md section 5.',
 }
